@@ -166,7 +166,7 @@ PROPS["C15"] = {
             "by 5-10 repetitions of one of 10 net-zero cycle templates (create-write-remove, nested storages + remove_storage_all, "
             "grow-then-shrink, overwrite with same content, several streams created then removed in same/reverse order, truncate-and-"
             "rewrite, rewrite across the 4096 cutoff through a new handle, append across the cutoff and shrink back, large -> small -> "
-            "remove, storage + state bits; one case in 30 - thorough 12 - with megabyte sizes: streams of 2.2-6 MB, growth steps of 1-2.6 MB), a quarter of them with a reopen at the end of every repetition; the model certifies the "
+            "remove, storage + state bits, so many small streams that the MiniFAT needs a second and third sector - version 3: 3-8, version 4: 17-36 streams of 3000-4090 bytes - all removed again, half of these with a lenient reopen in every repetition; one case in 30 - thorough 12 - with megabyte sizes: streams of 2.2-6 MB, growth steps of 1-2.6 MB), a quarter of them with a reopen at the end of every repetition; the model certifies the "
             "cycle is net-zero, then the length of the backing store after every repetition r >= 3 must equal that after repetition 2 "
             "('unchanged from the second repetition on'); in addition, from the second repetition on, the image just before every write that extends the file must not list a free sector in its FAT, and a step that extends the mini stream must have used up every mini sector that was free before it ('space released is reused by later allocations'). non-trivial = cycle certified net-zero and "
             "measured; distinct = FNV-64 of steps",
@@ -176,7 +176,7 @@ PROPS["C15"] = {
     "thorough": {"budget_s": 240},
     "floors": {
         "quick": {"cycles_checked": 30000, "cycles.template0.mini": 1500, "cycles.template0.regular": 500, "cycles.template1.mini": 1500,
-                  "cycles.template2.mini": 1500, "cycles.template4.regular": 500, "cycles.template7.mini": 500, "cycles.template7.regular": 300, "cycles.template8.mini": 500, "cycles.template9.mini": 500, "prefix.emptied": 5000, "prefix.fill_steered": 10000, "cycles_megabyte_sized": 500, "growth_events_inspected": 200, "mini_growth_events_inspected": 1500},
+                  "cycles.template2.mini": 1500, "cycles.template4.regular": 500, "cycles.template7.mini": 500, "cycles.template7.regular": 300, "cycles.template8.mini": 500, "cycles.template9.mini": 500, "cycles.template12.mini": 200, "prefix.emptied": 5000, "prefix.fill_steered": 10000, "cycles_megabyte_sized": 500, "growth_events_inspected": 200, "mini_growth_events_inspected": 1500},
         "thorough": {"cycles_checked": 300000},
     },
 }
